@@ -1315,12 +1315,13 @@ func (r *Ring) getCachedShuffledSubring(identifier string, size int) *Ring {
 	cached.mtx.Lock()
 	defer cached.mtx.Unlock()
 
-	// Update instance states and timestamps. We know that the topology is the same,
-	// so zones and tokens are equal.
+	// Update instance states, timestamps and versions (everything RingCompare doesn't treat as
+	// a topology change). We know that the topology is the same, so zones and tokens are equal.
 	for name, cachedIng := range cached.ringDesc.Ingesters {
 		ing := r.ringDesc.Ingesters[name]
 		cachedIng.State = ing.State
 		cachedIng.Timestamp = ing.Timestamp
+		cachedIng.Versions = ing.Versions
 		cached.ringDesc.Ingesters[name] = cachedIng
 	}
 	return cached
@@ -1371,12 +1372,13 @@ func (r *Ring) getCachedShuffledSubringWithLookback(identifier string, size int,
 	cachedSubring.mtx.Lock()
 	defer cachedSubring.mtx.Unlock()
 
-	// Update instance states and timestamps. We know that the topology is the same,
-	// so zones and tokens are equal.
+	// Update instance states, timestamps and versions (everything RingCompare doesn't treat as
+	// a topology change). We know that the topology is the same, so zones and tokens are equal.
 	for name, cachedIng := range cachedSubring.ringDesc.Ingesters {
 		ing := r.ringDesc.Ingesters[name]
 		cachedIng.State = ing.State
 		cachedIng.Timestamp = ing.Timestamp
+		cachedIng.Versions = ing.Versions
 		cachedSubring.ringDesc.Ingesters[name] = cachedIng
 	}
 
